@@ -224,7 +224,7 @@ def build_close(reg, common):
             "implies(old(self.state) != 0, self.state == 0 and not self.wasClean and self.wasNotCleanReason is not None and "
             "ghost.n_drop == old(ghost.n_drop) + 1 and ghost.drop_abort)",
             "implies(old(self.state) == 0, " + NOEFFECT + ")",
-        ], known={len(INV) + 3: "C17-autoping-timeout-after-close"}, **common)
+        ], **common)
 
     # ---------------------------------------------------------------- received close frame
     CLIENT_DROP_TIMER = TIMER_ACTIVE.format(f="self.serverConnectionDropTimeoutCall", d="self.serverConnectionDropTimeout", k=3)
@@ -272,7 +272,7 @@ def build_close(reg, common):
             "implies(old(self.state) == 2 and not self.failedByMe and not self.factory.isServer and "
             "self.serverConnectionDropTimeout > 0, " + CLIENT_DROP_TIMER + ")",
         ],
-        known={len(INV) + 15: "C05-client-reply-close-no-drop-timer"}, **common)
+        hints=["utf8_decoder_agrees(reasonRaw)"], **common)
 
     # ---------------------------------------------------------------- transport lost
     CL_MOD = ["self.serverConnectionDropTimeoutCall", "self.serverConnectionDropTimeoutCall.active",
@@ -664,4 +664,6 @@ def build_send(reg, common):
             "implies(not first and not done, ghost.cur_binary == isBinary)",
             "ghost.wellformed == old(ghost.wellformed) and ghost.close_frames == old(ghost.close_frames) and self.state == 3",
             "opcode == (2 if isBinary else 1) and not sendCompressed",
-        ] + INV, "modifies": GHOST_FRAME}}, asserts="oblige", **common)
+        ] + INV, "modifies": GHOST_FRAME,
+            "hints": ["seq_slice_concat(payload, i, i + pfs)", "seq_slice_concat(payload, i, n)"]}},
+        asserts="oblige", **common)
